@@ -1,7 +1,7 @@
 #!/bin/sh
 # usage: verify_seed.sh <Cxx> <variant>  -- independent confirmation of a seeded change in its scratch worktree /tmp/wt-<Cxx>
 # checks: patch applies + compiles, existing suite passes with it, demo fails with it, demo passes without it
-ID="$1"; X="$2"; WT=/tmp/wt-$ID; S=/tmp/seed-$ID/$X; OUT=$S/verify.txt
+ID="$1"; X="$2"; WT=${WT:-/tmp/wt-$ID}; S=/tmp/seed-$ID/$X; OUT=$S/verify.txt
 export CARGO_NET_OFFLINE=true CARGO_TARGET_DIR=$WT/target
 cd $WT || exit 9
 git checkout -q -- . ; rm -f quil-rs/tests/seed_demo.rs
